@@ -123,8 +123,8 @@ def emit_fn(item, ledger, global_rewrites, probe=False):
     for n, lp in enumerate(it["loops"]):
         spec = loops.get(n, {})
         c = "\n"
-        c += _clauses("invariant", spec.get("invariant"), "        ")
         c += _clauses("invariant_except_break", spec.get("invariant_except_break"), "        ")
+        c += _clauses("invariant", spec.get("invariant"), "        ")
         c += _clauses("ensures", spec.get("ensures"), "        ")
         if spec.get("decreases"):
             c += "            decreases %s,\n" % spec["decreases"]
